@@ -13,6 +13,8 @@ import (
 	"bytes"
 	"errors"
 	"fmt"
+	"math"
+	"math/big"
 	"reflect"
 	"strings"
 	"testing"
@@ -262,6 +264,65 @@ func TestVerifC05Native(t *testing.T) {
 			return ""
 		})
 	}
+	// native values of EVERY kind as elements of slices / maps (any-typed and typed containers, nested,
+	// pointer elements) for every element kind: error, or the element holds exactly the source value
+	// (Go conversions between numeric kinds wrap and truncate, int->string makes a rune: none of that)
+	srcVals := []any{int(300), int(-1), int(65), int(5), int64(1) << 40, int8(-5), uint8(200), uint16(65535), uint64(1<<63 + 5), uint(7), int32(-70000),
+		float64(3.7), float64(1e300), float64(2), float64(-0.5), float32(0.5), float32(3e38), "7", "x", true, c05nStr("named"), time.Duration(1500)}
+	elemTypes := []reflect.Type{reflect.TypeOf(int8(0)), reflect.TypeOf(uint8(0)), reflect.TypeOf(int16(0)), reflect.TypeOf(int(0)), reflect.TypeOf(int64(0)), reflect.TypeOf(uint32(0)),
+		reflect.TypeOf(uint64(0)), reflect.TypeOf(float32(0)), reflect.TypeOf(float64(0)), reflect.TypeOf(""), reflect.TypeOf(false), reflect.TypeOf(time.Duration(0)), reflect.TypeOf(c05nStr(""))}
+	type contForm struct {
+		name string
+		ft   func(e reflect.Type) reflect.Type
+		doc  func(v any) any
+	}
+	typedSlice := func(v any) any {
+		sl := reflect.MakeSlice(reflect.SliceOf(reflect.TypeOf(v)), 1, 1)
+		sl.Index(0).Set(reflect.ValueOf(v))
+		return sl.Interface()
+	}
+	typedMap := func(v any) any {
+		mp := reflect.MakeMap(reflect.MapOf(reflect.TypeOf(""), reflect.TypeOf(v)))
+		mp.SetMapIndex(reflect.ValueOf("k"), reflect.ValueOf(v))
+		return mp.Interface()
+	}
+	forms := []contForm{
+		{"[]T <- []any", reflect.SliceOf, func(v any) any { return []any{v} }},
+		{"[]T <- typed slice", reflect.SliceOf, typedSlice},
+		{"[]*T <- []any", func(e reflect.Type) reflect.Type { return reflect.SliceOf(reflect.PointerTo(e)) }, func(v any) any { return []any{v} }},
+		{"[][]T <- [][]any", func(e reflect.Type) reflect.Type { return reflect.SliceOf(reflect.SliceOf(e)) }, func(v any) any { return []any{[]any{v}} }},
+		{"[][]T <- []any of typed slices", func(e reflect.Type) reflect.Type { return reflect.SliceOf(reflect.SliceOf(e)) }, func(v any) any { return []any{typedSlice(v)} }},
+		{"map[string]T <- map[string]any", func(e reflect.Type) reflect.Type { return reflect.MapOf(reflect.TypeOf(""), e) }, func(v any) any { return map[string]any{"k": v} }},
+		{"map[string]T <- typed map", func(e reflect.Type) reflect.Type { return reflect.MapOf(reflect.TypeOf(""), e) }, typedMap},
+		{"map[string][]T <- map[string]any of []any", func(e reflect.Type) reflect.Type { return reflect.MapOf(reflect.TypeOf(""), reflect.SliceOf(e)) }, func(v any) any { return map[string]any{"k": []any{v}} }},
+		{"[]map[string]T <- []any of map[string]any", func(e reflect.Type) reflect.Type { return reflect.SliceOf(reflect.MapOf(reflect.TypeOf(""), e)) }, func(v any) any { return []any{map[string]any{"k": v}} }},
+		{"[]struct{A T} <- []any of map[string]any", func(e reflect.Type) reflect.Type {
+			return reflect.SliceOf(reflect.StructOf([]reflect.StructField{{Name: "A", Type: e, Tag: `key:"a"`}}))
+		}, func(v any) any { return []any{map[string]any{"a": v}} }},
+	}
+	for _, fm := range forms {
+		for _, et := range elemTypes {
+			for _, sv := range srcVals {
+				fm, et, sv := fm, et, sv
+				typ := reflect.StructOf([]reflect.StructField{{Name: "V", Type: fm.ft(et), Tag: `key:"v"`}})
+				var res reflect.Value
+				add("native-elem-cross-kind", fmt.Sprintf("%s, T=%s, element %T(%v)", fm.name, et, sv, sv), "free", func() error {
+					res = reflect.New(typ)
+					return UnmarshalKey(map[string]any{"v": fm.doc(sv)}, res.Interface())
+				}, func() string {
+					leaf, ok := c05nFirstLeaf(res.Elem().Field(0))
+					if !ok {
+						return fmt.Sprintf("accepted, but the container is empty: %s", c05nLoose(res.Elem().Field(0).Interface()))
+					}
+					if !c05nSameValue(sv, leaf) {
+						return fmt.Sprintf("element %T(%v) stored as %s(%v)", sv, sv, leaf.Type(), leaf.Interface())
+					}
+					return ""
+				})
+			}
+		}
+	}
+
 	// range on native numbers of every kind
 	type ranged struct {
 		I   int     `key:"i,optional,range=[1:5]"`
@@ -931,6 +992,86 @@ func TestVerifC05Native(t *testing.T) {
 		}
 	}
 	m.Sample(map[string]any{"rows": len(rows)})
+}
+
+// c05nFirstLeaf descends to the first scalar inside slices / maps / pointers / one-field structs.
+func c05nFirstLeaf(v reflect.Value) (reflect.Value, bool) {
+	for {
+		switch v.Kind() {
+		case reflect.Slice:
+			if v.Len() == 0 {
+				return v, false
+			}
+			v = v.Index(0)
+		case reflect.Map:
+			if v.Len() == 0 {
+				return v, false
+			}
+			v = v.MapIndex(v.MapKeys()[0])
+		case reflect.Ptr, reflect.Interface:
+			if v.IsNil() {
+				return v, false
+			}
+			v = v.Elem()
+		case reflect.Struct:
+			v = v.Field(0)
+		default:
+			return v, true
+		}
+	}
+}
+
+func c05nRat(v reflect.Value) (*big.Rat, bool) {
+	switch v.Kind() {
+	case reflect.Int, reflect.Int8, reflect.Int16, reflect.Int32, reflect.Int64:
+		return new(big.Rat).SetInt64(v.Int()), true
+	case reflect.Uint, reflect.Uint8, reflect.Uint16, reflect.Uint32, reflect.Uint64:
+		return new(big.Rat).SetInt(new(big.Int).SetUint64(v.Uint())), true
+	case reflect.Float32, reflect.Float64:
+		r := new(big.Rat)
+		if r.SetFloat64(v.Float()) == nil {
+			return nil, false
+		}
+		return r, true
+	}
+	return nil, false
+}
+
+// c05nSameValue: does the stored scalar hold exactly the source value (numbers by value, a float
+// narrowed to float32 may be the nearest float32; strings and bools identical; no cross-class coercion).
+func c05nSameValue(src any, got reflect.Value) bool {
+	sv := reflect.ValueOf(src)
+	switch {
+	case sv.Kind() == reflect.Bool || got.Kind() == reflect.Bool:
+		return sv.Kind() == reflect.Bool && got.Kind() == reflect.Bool && sv.Bool() == got.Bool()
+	case sv.Kind() == reflect.String && got.Kind() == reflect.String:
+		return sv.String() == got.String()
+	case sv.Kind() == reflect.String || got.Kind() == reflect.String:
+		if st, ok := src.(fmt.Stringer); ok && got.Kind() == reflect.String && st.String() == got.String() {
+			return true // the value's own textual form (time.Duration): exact text
+		}
+		// text <-> number: tolerated only when the text is exactly that number
+		str, num := sv, got
+		if got.Kind() == reflect.String {
+			str, num = got, sv
+		}
+		r, ok := new(big.Rat).SetString(str.String())
+		n, ok2 := c05nRat(num)
+		return ok && ok2 && len(str.String()) < 400 && r.Cmp(n) == 0
+	}
+	a, ok1 := c05nRat(sv)
+	b, ok2 := c05nRat(got)
+	if !ok1 || !ok2 {
+		return false
+	}
+	if a.Cmp(b) == 0 {
+		return true
+	}
+	if got.Kind() == reflect.Float32 && (sv.Kind() == reflect.Float64 || sv.Kind() == reflect.Float32) {
+		f := sv.Float()
+		return !math.IsInf(float64(float32(f)), 0) && float64(float32(f)) == got.Float()
+	}
+	return false
 }
 
 // c05nLoose renders containers for comparison across static types (map[string]int vs map[string]any ...).
